@@ -123,3 +123,72 @@ class ByName(Kernel):
 
 
 KERNELS = [ByName()]
+
+
+class Register(Kernel):
+    id = "C11.P.register"
+    prop = "C11"
+    file = "einx/_src/frontend/backend.py"
+    module = "einx._src.frontend.backend"
+    qual = "BackendRegistryState/_register"
+    allowed_raises = ("ValueError",)
+    describe = ("_register(b): ValueError exactly for something that is neither Backend nor InvalidBackend; otherwise b is appended to the backend list (order kept), it becomes THE backend "
+                "registered under b.name (all other names unchanged) and every memoised choice by tensor types is forgotten (a choice made before the registration could be outdated - "
+                "fix c5b814b)")
+
+    def setup(self, eng, bound=None):
+        self.n = z3.Int("n")
+        self.bk = z3.Array("backends", I, Obj)
+        self.has, self.val = z3.Array("registered", Obj, B), z3.Array("backend_of_name", Obj, Obj)
+        self.mh, self.mv = z3.Array("memo_has", Obj, B), z3.Array("memo_val", Obj, Obj)
+        self.b = z3.Const("backend", Obj)
+        st = SRec("BackendRegistryState", backends=SSeq(self.bk, self.n, "obj", "list"), name_to_backend=SMap(self.has, self.val, "obj", "obj"), tensortypes_to_backend=SMap(self.mh, self.mv, "obj", "obj"))
+        orig_assign = eng.assign
+
+        def assign(target, v, p):  # self.<symbolic dict>[key] = value
+            if isinstance(target, ast.Subscript) and isinstance(target.value, ast.Attribute) and isinstance(target.value.value, ast.Name):
+                rec = p.lookup(target.value.value.id)
+                m = rec.f.get(target.value.attr) if isinstance(rec, SRec) else None
+                if isinstance(m, SMap):
+                    (k, _), = list(eng.ev(target.slice, p))
+                    f = dict(rec.f)
+                    f[target.value.attr] = SMap(z3.Store(m.has, k.t, z3.BoolVal(True)), z3.Store(m.val, k.t, v.t), m.kk, m.vk)
+                    p.bind(target.value.value.id, SRec(rec.cls, **f))
+                    return True
+            return orig_assign(target, v, p)
+
+        eng.assign = assign
+        orig_method = eng.method
+
+        def method(n, o, attr, av, kw, p):  # <symbolic dict>.clear()
+            if isinstance(o, SMap) and attr == "clear" and not av and isinstance(n.func.value, ast.Attribute) and isinstance(n.func.value.value, ast.Name):
+                rec = p.lookup(n.func.value.value.id)
+                f = dict(rec.f)
+                f[n.func.value.attr] = SMap(z3.K(Obj, z3.BoolVal(False)), o.val, o.kk, o.vk)
+                p.bind(n.func.value.value.id, SRec(rec.cls, **f))
+                yield SConc(None), p
+                return
+            yield from orig_method(n, o, attr, av, kw, p)
+
+        eng.method = method
+        return {"self": st, "backend": SObj(self.b)}, [self.n >= 0], {}
+
+    def post(self, eng, out, p):
+        valid = z3.Or(uf("is_Backend", Obj, B)(self.b), uf("is_InvalidBackend", Obj, B)(self.b))
+        if isinstance(out, Raise):
+            eng.oblige("post:ValueError only for something that is neither a Backend nor an InvalidBackend", p, z3.Not(valid), "post")
+            return
+        eng.oblige("post:normal exit only for a Backend or InvalidBackend", p, valid, "post")
+        st = p.lookup("self")
+        bs = eng.as_seq(st.f["backends"], p)
+        k, x = fresh("k"), z3.Const("x", Obj)
+        nm = uf("attr_name", Obj, Obj)(self.b)
+        eng.oblige("post:the backend list is the old list with the backend appended", p, z3.And(bs.n == self.n + 1, z3.Select(bs.arr, self.n) == self.b, z3.ForAll([k], z3.Implies(z3.And(0 <= k, k < self.n), z3.Select(bs.arr, k) == z3.Select(self.bk, k)))), "post")
+        m = st.f["name_to_backend"]
+        eng.oblige("post:the backend is registered under its own name; every other name keeps its backend", p,
+                   z3.And(z3.Select(m.has, nm), z3.Select(m.val, nm) == self.b, z3.ForAll([x], z3.Implies(x != nm, z3.And(z3.Select(m.has, x) == z3.Select(self.has, x), z3.Select(m.val, x) == z3.Select(self.val, x))))), "post")
+        memo = st.f["tensortypes_to_backend"]
+        eng.oblige("post:no memoised choice by tensor types survives a registration", p, z3.ForAll([x], z3.Not(z3.Select(memo.has, x))), "post")
+
+
+KERNELS.append(Register())
